@@ -8,7 +8,9 @@ PROP = "C16"
 ALPHA = "STYKEG"
 LONG = ["KSEKTGKEYEKE", "KKSKKYEEEETE",
         # phospho-states inside kappa's clamp window (delta / delta-max in (1, 1.1): kappa is exactly 1.0)
-        "KKSETEYEK", "EDSKRKRKYE"]
+        "KKSETEYEK", "EDSKRKRKYE",
+        # the same residue type at position 1 and at a two-digit position (labels like S1 / S10), any order of setting
+        "SGKEGKEGKSGE"]
 LONG4 = ["GSKKEYEDTGRS"]     # four sites: 65 states (thorough only)
 
 
@@ -433,7 +435,7 @@ def two_wrappers(seq):
     return out, calls
 
 
-MANY = ["KSEKTYKESEYKTE", "SKTEYKSETKYESK", "STYSTYSTYSTKE", "SSTTYYKE"]     # 6, 7, 11 and 6 (adjacent) sites: 64 / 128 / 2048 on-off states
+MANY = ["KSEKTYKESEYKTE", "SKTEYKSETKYESK", "STYSTYSTYSTKE", "KKSTYSTK", "SSTTYYKE"]     # 6, 7, 11 and 6 (adjacent) sites: 64 / 128 / 2048 on-off states
 
 
 def many_sites(seq):
@@ -493,7 +495,8 @@ def run(tier, seed, t0):
             items += [(w, True) for w in spaces.shard_words(ALPHA, L, "")]
         items += [(w, False) for w in spaces.shard_words("SYK", 5, "")]
         items += [(w, False) for w in LONG + LONG4]
-    items += [(w, "many") for w in (MANY if tier == "thorough" else MANY[:3])]
+    # (KKSTYSTK: with every site on, delta / delta-max is 1.15 - beyond kappa's clamp window, the raw quotient is the answer)
+    items += [(w, "many") for w in (MANY if tier == "thorough" else MANY[:4])]
     items += [(w, "many") for w in LONG]          # (two-wrapper scenario on the 12-mers as well)
     items.sort(key=lambda it: -(sum(it[0].count(c) for c in "STY") * 10 + len(it[0])))
     nsh = 16 * 8
